@@ -110,6 +110,78 @@ func init() {
 		enc.Encode(map[string]any{"parts": classParts, "subs": subs, "subtexts": subtexts, "dom": classDomain(), "dias": allDias})
 		return 0
 	}
+	commands["replay-fold"] = func(args []string) int {
+		fs := flag.NewFlagSet("replay-fold", flag.ExitOnError)
+		in := fs.String("i", "", "TLC output with <<\"F\", json>> predictions of Gen_Fold")
+		fs.Parse(args)
+		f, err := os.Open(*in)
+		if err != nil {
+			fmt.Fprintln(os.Stderr, err)
+			return 2
+		}
+		defer f.Close()
+		type mism struct {
+			Rule  string `json:"rule"`
+			Class string `json:"class"`
+			IC    bool   `json:"ignore_case"`
+			Dia   string `json:"dialect"`
+			N     int    `json:"runes_disagreeing"`
+			First int    `json:"first_rune"`
+			Hex   string `json:"first_rune_hex"`
+			Spec  bool   `json:"specification_says_member"`
+		}
+		mm := []mism{}
+		classes, cases := 0, 0
+		sc := bufio.NewScanner(f)
+		sc.Buffer(make([]byte, 1<<20), 1<<26)
+		buf := make([]rune, 1)
+		for sc.Scan() {
+			p, ok := tlcPayload(sc.Text(), "F")
+			if !ok {
+				continue
+			}
+			var rec struct {
+				Lo      int   `json:"lo"`
+				Hi      int   `json:"hi"`
+				Dom     []int `json:"dom"`
+				Members []int `json:"members"`
+			}
+			if err := json.Unmarshal([]byte(p), &rec); err != nil {
+				fmt.Fprintln(os.Stderr, "bad F record", err)
+				return 2
+			}
+			text := fmt.Sprintf(`[\x{%X}-\x{%X}]`, rec.Lo, rec.Hi)
+			re, err := compile(`\A`+text+`\z`, optBits([]string{"i"}, "net", false))
+			if err != nil {
+				fmt.Fprintln(os.Stderr, "compile", text, err)
+				return 2
+			}
+			classes++
+			want := map[int]bool{}
+			for _, c := range rec.Members {
+				want[c] = true
+			}
+			n, first, spec := 0, -1, false
+			for _, c := range rec.Dom {
+				buf[0] = rune(c)
+				got, _ := re.MatchRunes(buf)
+				cases++
+				if got != want[c] {
+					if n == 0 {
+						first, spec = c, want[c]
+					}
+					n++
+				}
+			}
+			if n > 0 && len(mm) < 5000 {
+				mm = append(mm, mism{"class.membership", text, true, "net", n, first, fmt.Sprintf("0x%x", first), spec})
+			}
+		}
+		enc := json.NewEncoder(os.Stdout)
+		enc.SetEscapeHTML(false)
+		enc.Encode(map[string]any{"classes": classes, "cases": cases, "mismatches": mm})
+		return 0
+	}
 	commands["replay-class"] = func(args []string) int {
 		fs := flag.NewFlagSet("replay-class", flag.ExitOnError)
 		in := fs.String("i", "", "TLC output with <<\"C\", json>> predictions")
